@@ -133,6 +133,9 @@ Definition guard (b : bool) (e : exn) : M unit := if b then ret tt else raise e.
 (* try m, on a TopologyException run the handler (which normally re-raises) *)
 Definition try_topology {A} (m : M A) (h : M A) : M A :=
   fun s => match m s with (s', Err ETopology) => h s' | r => r end.
+(* try m, on ANY exception run the handler with it (which normally re-raises it) *)
+Definition try_any {A} (m : M A) (h : exn -> M A) : M A :=
+  fun s => match m s with (s', Err e) => h e s' | r => r end.
 Fixpoint for_each {A} (l : list A) (f : A -> M unit) : M unit :=
   match l with [] => ret tt | x :: r => f x ;;; for_each r f end.
 (* str(uuid.uuid4()): the next id the implementation drew during this call *)
